@@ -4,6 +4,7 @@ on a scratch git worktree of /repo (never /repo itself), and records which oblig
 import json,os,subprocess,sys,re,shutil
 V='/verif'; WT='/tmp/seedrun-wt'
 only=sys.argv[1:]
+VC=subprocess.run(['git','-C',V,'rev-parse','--short','HEAD'],capture_output=True,text=True).stdout.strip()
 subprocess.run(['git','-C','/repo','worktree','remove','--force',WT],stderr=subprocess.DEVNULL)
 subprocess.check_call(['git','-C','/repo','worktree','add','-q','--detach',WT,'HEAD'])
 resp=V+'/seeded/RESULTS.json'
@@ -16,14 +17,14 @@ try:
         subprocess.check_call(['git','-C',WT,'checkout','-q','--','.'])
         if subprocess.run(['git','-C',WT,'apply',V+'/seeded/'+d+'/patch.diff']).returncode!=0:
             res[d]={'exit':None,'caught_by':'PATCH DOES NOT APPLY ON CURRENT HEAD'}; continue
-        env=dict(os.environ,VERIF_REPO=WT,VERIF_EVIDENCE_DIR='/tmp/seedrun-evidence',VERIF_REPLAY_DIR='/tmp/seedrun-replays/'+d)
+        env=dict(os.environ,VERIF_FAIL_FAST='1',VERIF_REPO=WT,VERIF_EVIDENCE_DIR='/tmp/seedrun-evidence',VERIF_REPLAY_DIR='/tmp/seedrun-replays/'+d)
         p=subprocess.run([V+'/bin/gosmt','check','--property',prop,'--tier','quick'],env=env,capture_output=True,text=True)
         obs=sorted(set(re.findall(r'^  violated: (\S+) in (\S+)',p.stdout,flags=re.M)))
         caught=', '.join('`%s` (%s)'%(o,h) for o,h in obs) if p.returncode==1 else ('NOT CAUGHT (exit %d)'%p.returncode)
         if p.returncode==2:
             inc=re.findall(r'^INCONCLUSIVE.*',p.stdout,flags=re.M)
             caught='inconclusive: '+(inc[0][:160] if inc else '')
-        res[d]={'exit':p.returncode,'caught_by':caught,'violations':len(re.findall(r'^VIOLATION',p.stdout,flags=re.M))}
+        res[d]={'exit':p.returncode,'caught_by':caught,'violations':len(re.findall(r'^VIOLATION',p.stdout,flags=re.M)),'verif_commit':VC}
         print(d,prop,res[d]['exit'],caught[:140],flush=True)
         json.dump(res,open(resp,'w'),indent=1)
 finally:
